@@ -22,6 +22,7 @@ def run(tier, seed, t0, only=None):
     obs += [Ob("blowfish-encipher[base]", M.ob_bf_encipher, {"which": "base"}, timeout=900),
             Ob("blowfish-encipher[unrolled]", M.ob_bf_encipher, {"which": "unrolled"}, timeout=900),
             Ob("blowfish-constants", M.ob_bf_constants, timeout=300),
+            Ob("saslprep-rfc4013", M.ob_saslprep, timeout=600),
             Ob("blowfish-expand", M.ob_bf_expand, {"which": "expand"}, timeout=900),
             Ob("blowfish-eks-salted-expand", M.ob_bf_expand, {"which": "eks"}, timeout=900),
             Ob("blowfish-key-to-words", M.ob_bf_key_to_words, timeout=600),
